@@ -109,3 +109,14 @@ def riffle(ops, kind, rng):
         for i, v in zip(idxs, vals):
             marks[i] = v
     return [ops[i] for i in sorted(range(len(ops)), key=lambda i: marks[i])]
+
+
+def shuffle_keys(obj, rng):
+    """Same JSON value with a random key order in every object (key order in a file is arbitrary)."""
+    if isinstance(obj, dict):
+        items = list(obj.items())
+        rng.shuffle(items)
+        return dict((k, shuffle_keys(v, rng)) for k, v in items)
+    if isinstance(obj, list):
+        return [shuffle_keys(v, rng) for v in obj]
+    return obj
